@@ -63,7 +63,7 @@ pub fn session(rng: &mut Rng) -> Generated {
         let a = rng.range(1, 50);
         let b = rng.range(1, 50);
         let times = rng.range(0, 3);
-        match rng.below(35) {
+        match rng.below(37) {
             0 => {
                 names.push("early-exit");
                 let limit = rng.range(0, 8);
@@ -562,6 +562,44 @@ pub fn session(rng: &mut Rng) -> Generated {
                          (if (< pn{t} 2) (begin (set! pn{t} (+ pn{t} 1)) ((car (cdr pks{t})) (list 'again pn{t}))) 'stop)
                          (length pks{t})",
                         t = t
+                    ),
+                );
+            }
+            35 | 36 => {
+                // a continuation captured inside the callback of for-each / map while the traversal
+                // is at one element is re-entered after the traversal has moved on or has finished
+                // (from a later callback of the same traversal, or from a later form): the
+                // traversal resumes from the element it was at when the capture happened
+                names.push("reentry-into-traversal-callback");
+                reentry = true;
+                let at = rng.range(1, 4);
+                let two = rng.chance(1, 3);
+                let (params, lists, note) = if two {
+                    ("x y", "'(1 2 3 4) '(a b c d e)", "(cons x y)")
+                } else {
+                    ("x", "'(1 2 3 4)", "x")
+                };
+                let from_callback = rng.chance(1, 2);
+                let jump_back = if from_callback {
+                    format!("(if (and (= x 4) (< tn{t} 1)) (begin (set! tn{t} (+ tn{t} 1)) (tk{t} 'back)))", t = t)
+                } else {
+                    String::new()
+                };
+                // for-each only: the order in which map applies its procedure is unspecified
+                let walker = "for-each";
+                p(
+                    &mut forms,
+                    &format!(
+                        "(define tk{t} #f)
+                         (define tn{t} 0)
+                         (define tseen{t} '())
+                         (define tres{t} ({walker} (lambda ({params}) (call/cc (lambda (c) (if (= x {at}) (set! tk{t} c)))) (set! tseen{t} (cons {note} tseen{t})) {jump_back} (* x 10)) {lists}))
+                         tseen{t}
+                         (if (< tn{t} 2) (begin (set! tn{t} (+ tn{t} 1)) (tk{t} 'again)) (list 'stop tseen{t}))
+                         tseen{t}
+                         (if (< tn{t} 2) (begin (set! tn{t} (+ tn{t} 1)) (tk{t} 'again)) (list 'stop tseen{t}))
+                         (list tn{t} tseen{t} (if (pair? tres{t}) tres{t} 'no-list))",
+                        t = t, walker = walker, params = params, at = at, note = note, jump_back = jump_back, lists = lists
                     ),
                 );
             }
